@@ -1988,6 +1988,15 @@ func (e *CoreExtension) filterNumberFormat(value interface{}, args ...interface{
 		decimals = 0
 	}
 
+	// More decimals than this (or fewer than none) is not a number format
+	const maxDecimals = 1000
+	if decimals < 0 {
+		decimals = 0
+	}
+	if decimals > maxDecimals {
+		return nil, fmt.Errorf("number_format filter: at most %d decimals are supported, got %d", maxDecimals, decimals)
+	}
+
 	// Format the number
 	format := "%." + strconv.Itoa(decimals) + "f"
 	str := fmt.Sprintf(format, num)
